@@ -481,6 +481,17 @@ def d2_items():
         yield tag + '/tuple', st('S', unnamed(3, tys, attrs), [dw(ts)], 'Unnamed', gen=g1), fail
         vs = [variant('A', 'Unnamed', unnamed(1, [tys[0]], [attrs[0]])), variant('B', 'Named', named(1, [tys[1]], [attrs[1]])), variant('C', 'Unnamed', unnamed(2, [PHT, tys[2]], [[], attrs[2]]))]
         yield tag + '/enum', en('E', vs, [dw(ts)], gen=g1), fail
+    # the skip marker sits on a SIBLING of the non-Eq field (same struct / same variant / another variant): the non-Eq field is still asserted
+    for spos, s in itertools.product((0, 2), ['skip', ('skip', ['EqHashOrd']), ('skip', ['Debug'])]):
+        tys = [PHT, ['NoEq'], PHT]
+        attrs = [[], [], []]
+        attrs[spos] = sk(s)
+        tag = 'eq/sibling%d/%s' % (spos, s if isinstance(s, str) else 'skip_' + s[1][0])
+        ts = ['PartialEq', 'Eq', 'Debug', 'Hash']
+        yield tag + '/struct', st('S', named(3, tys, attrs), [dw(ts)], gen=g1), True
+        yield tag + '/tuple', st('S', unnamed(3, tys, attrs), [dw(ts)], 'Unnamed', gen=g1), True
+        yield tag + '/enum_same_variant', en('E', [variant('A', 'Unnamed', unnamed(3, tys, attrs)), variant('B')], [dw(ts)], gen=g1), True
+        yield tag + '/enum_other_variant', en('E', [variant('A', 'Unnamed', unnamed(1, [PHT], [attrs[spos]])), variant('B', 'Named', named(2, [['NoEq'], PHT]))], [dw(ts)], gen=g1), True
     # skip_inner on the variant / struct holding the field
     for grp, fail in ((None, False), (['EqHashOrd'], False), (['Debug'], True)):
         a = [sub(skip_meta('skip_inner', grp))]
